@@ -359,14 +359,14 @@ class KeyPath(formatting.Formattable):
           v = src.sym_getattr(key)
         return self._query(key_pos + 1, v, use_inferred)
     elif hasattr(src, '__getitem__'):
-      if isinstance(key, int):
+      if isinstance(key, int) and not isinstance(src, dict):
         if not hasattr(src, '__len__'):
           raise KeyError(
               f'Cannot query index ({key}) on object ({src!r}): '
               f'\'__len__\' does not exist.')
-        if key < len(src):
+        if -len(src) <= key < len(src):
           return self._query(key_pos + 1, src[key], use_inferred)
-      else:
+      elif not isinstance(src, (list, tuple, str)):
         if not hasattr(src, '__contains__'):
           raise KeyError(
               f'Cannot query key ({key!r}) on object ({src!r}): '
